@@ -29,6 +29,8 @@ R4 (K2) get_missing_parent_inventories: an empty set is returned only when the f
 Added while testing against seeded changes: R5 RepoFetcher._fetch_everything_for_search reaches sink.finished() only
 through the 'nothing left' edge of a test of the (resume_tokens, missing_keys) just returned by insert_stream; R1b all
 four chk root-key sets of the new inventories are walked, interesting with its own uninteresting set.
+R6 RepositoryAcquisitionPolicy._add_fallback sets _require_stacking = True on every normal path after a successful
+add_fallback_repository(); the flag has readers (sprout / configure_branch / initialize_on_transport_ex).
 Does not decide: that _check_new_inventories / fileids_altered_by_revision_ids compute the right key sets.
 """
 
@@ -145,8 +147,28 @@ def run(ctx):
     pi = [s_ for s_ in walk_own(fn) if isinstance(s_, ast.Assign) and norm(s_.targets[0]) == un]
     ctx.check("R4-missing-parents-reported", where, len(pi) == 1 and norm(pi[0].value) == "self.inventories._index", "presence is tested against the unstacked (own) inventory index")
 
+    # ---- R6: a repository that was given a fallback makes stacking mandatory for the branch created next ----------
+    # RepositoryAcquisitionPolicy._add_fallback: once add_fallback_repository() succeeded, the policy records
+    # _require_stacking = True on every normal path — Branch.sprout (format upgrade) and configure_branch (refusal when
+    # the branch cannot stack) read it; without it a partial, stacked-style fetch ends in an unstacked branch whose tip
+    # cannot be read.
+    CD = "breezy/controldir.py"
+    fa_, ga_, wa_ = fn_cfg(ctx, CD, "RepositoryAcquisitionPolicy._add_fallback")
+    gax = ga_.without_exc_edges()
+    addf = need(wa_, calling(gax, attr="add_fallback_repository"), "repository.add_fallback_repository(...)")
+    setr = [n.id for n in gax.nodes if n.kind == "stmt" and isinstance(n.ast, ast.Assign) and norm(n.ast.targets[0]) == "self._require_stacking" and norm(n.ast.value) == "True"]
+    r6 = gax.reach(addf, avoid=set(setr))
+    ctx.check("R6-fallback-makes-stacking-mandatory", wa_, bool(setr) and gax.exit not in r6, "after a successful add_fallback_repository() the policy sets _require_stacking = True on every normal path", message="_add_fallback gives the new repository a fallback without recording that stacking is now required: `brz branch` into a location with a default stacking policy, with a branch format that cannot stack, fetches only the stacked-style subset and then leaves an unstacked branch whose tip cannot be read")
+    readers = []
+    for rel_ in ("breezy/controldir.py", "breezy/branch.py", "breezy/bzr/bzrdir.py", "breezy/bzr/branch.py"):
+        if "_require_stacking" in repo.text(rel_):
+            for q_, f_ in repo.module(rel_).functions().items():
+                if q_ != "RepositoryAcquisitionPolicy._add_fallback" and any(isinstance(n, ast.Attribute) and n.attr == "_require_stacking" and isinstance(n.ctx, ast.Load) for n in ast.walk(f_)):
+                    readers.append(f"{rel_}:{q_}")
+    ctx.check("R6-fallback-makes-stacking-mandatory", CD, len(readers) >= 2, f"_require_stacking is read by {readers}")
 
 MUTANTS = [
+    Mutant("fallback added without making stacking mandatory", "breezy/controldir.py", "            if self._require_stacking:\n                raise\n        else:\n            self._require_stacking = True\n", "            if self._require_stacking:\n                raise\n", expect="R6-fallback-makes-stacking-mandatory"),
     Mutant("fetch finished although keys are still missing", "breezy/bzr/fetch.py", "            if missing_keys:\n                raise AssertionError(\n                    f\"second push failed to complete a fetch {missing_keys!r}.\"\n                )\n", "            if missing_keys:\n                mutter(\"fetch incomplete: %r\", missing_keys)\n", expect="R5-fetch-complete-before-finish"),
     Mutant("pid map walked from the id_to_entry roots", GC, "            root_key_info.interesting_pid_root_keys,\n            root_key_info.uninteresting_pid_root_keys,", "            root_key_info.interesting_root_keys,\n            root_key_info.uninteresting_pid_root_keys,", expect="R1-chk-roots-walked"),
     Mutant("commit_write_group before the refill", VF, "        self.repository._add_revision(rev)\n        self._ensure_fallback_inventories()\n        if self._owns_transaction:\n            self.repository.commit_write_group()\n", "        self.repository._add_revision(rev)\n        if self._owns_transaction:\n            self.repository.commit_write_group()\n        self._ensure_fallback_inventories()\n", expect="R1-refill-before-commit"),
